@@ -108,6 +108,9 @@ pub fn default_timeouts(transition_ms: u64) -> Timeouts {
 /// Leaked storage with 16 frames of the given payload size (1100, 64 or 48; anything else = 1100).
 pub fn make_net(frame_data: u64) -> Net {
     match frame_data {
+        // (a frame takes (data + 12) / 14 AL status reads)
+        24 => simrun::leak_storage::<16, { simrun::element(24) }>(),
+        32 => simrun::leak_storage::<16, { simrun::element(32) }>(),
         48 => simrun::leak_storage::<16, { simrun::element(48) }>(),
         64 => simrun::leak_storage::<16, { simrun::element(64) }>(),
         _ => simrun::leak_storage::<16, { simrun::element(1100) }>(),
